@@ -55,6 +55,14 @@ theorem fix_print_parse (v : Int) (hlo : -2147483648 < v) (hhi : v ≤ 214748364
     have : ((v.natAbs : Nat) : Int) = v := by omega
     simp [this]
 
+/-- **print_fuel_suffices.** The digit loop of `Display` (an unbounded `loop` in Rust, fuel in
+the model) stops by itself within seven iterations for every fraction: any fuel ≥ 7 (the
+model uses 12) prints the same digits, at most seven of them. -/
+theorem print_fuel_suffices (n : Nat) (f : Int) (h0 : 0 ≤ f) (h1 : f < 1048576) :
+    fracDigits (n + 7) (10 * f + 5) 10 = fracDigits 7 (10 * f + 5) 10 ∧
+    (fracDigits 7 (10 * f + 5) 10).length ≤ 7 :=
+  ⟨frac_fuel_suffices n f h0 h1, frac_at_most_7_digits 0 f h0 h1⟩
+
 /-- Non-vacuity: concrete instances (a value needing seven digits, the largest, a negative). -/
 example : parseFix (plText 333333) = ⟨333333, .none⟩ := fix_print_parse _ (by decide) (by decide)
 example : printFix 2147483647 = "2047.999999".toList := by decide
